@@ -287,6 +287,18 @@ VARIANTS = [
     {"name": "P R6 packer narrows with data() and a slice again", "file": PACK, "expect": "silent",
      "old": "            return struct_obj.pack(*x.data(needed_elems)[:needed_elems])",
      "new": "            x = x.data(needed_elems)\n            return struct_obj.pack(*x[:needed_elems])"},
+    # ------------------------------------------------------------------ R10 (anchored on the repaired text)
+    {"name": "R10 unread remainder only logged again (revert of the raw_trailer fix)", "file": DES, "expect": "C02.R10",
+     "old": "            msg.raw_trailer = reader.read_bytes(len(reader), to_bytes=True)\n"
+            "            LOG.warning(f\"Left {len(msg.raw_trailer)} bytes unread past end of {msg.name} message, \"\n"
+            "                        f\"is your message template up to date? {msg.raw_trailer!r}\")\n",
+     "new": "            LOG.warning(f\"Left {len(reader)} bytes unread past end of {msg.name} message, \"\n"
+            "                        f\"is your message template up to date? {reader.read_bytes(len(reader))!r}\")\n"},
+    {"name": "R10 kept remainder never written back", "file": SER, "expect": "C02.R10",
+     "old": "            body_writer.write_bytes(msg.raw_trailer)\n", "new": ""},
+    {"name": "P R10 remainder read into a local before it is stored", "file": DES, "expect": "silent",
+     "old": "            msg.raw_trailer = reader.read_bytes(len(reader), to_bytes=True)\n",
+     "new": "            left = len(reader)\n            msg.raw_trailer = reader.read_bytes(left, to_bytes=True)\n"},
     # ------------------------------------------------------------------ R8 / R9
     {"name": "R8 to_dict hands out the blocks' own variable dicts", "file": MSG, "expect": "C02.R8",
      "old": "                new_vars = {}\n                for var_name, val in block.items():\n                    new_vars[var_name] = val\n"
